@@ -6,6 +6,7 @@ package main
 import (
 	"fmt"
 	"go/types"
+	"path/filepath"
 	"strconv"
 	"strings"
 
@@ -70,8 +71,51 @@ func (P *Program) findIntrinsic(fn *ssa.Function) intrinsicFn {
 			return h
 		}
 	}
-	if stub, ok := P.stubs[name]; ok {
-		return func(fr *frame, _ *ssa.Function, args []value) value {
+	if entries, ok := P.stubs[name]; ok {
+		orig := intrinsics[name]
+		return func(fr *frame, f *ssa.Function, args []value) value {
+			var stub *ssa.Function
+			if fr != nil {
+				cf := fr.fn
+				for cf.Parent() != nil {
+					cf = cf.Parent()
+				}
+				base := filepath.Base(P.fset.Position(cf.Pos()).Filename)
+				for _, e := range entries {
+					if cf == e.fn {
+						stub = nil // the stub itself may call the function it replaces
+						break
+					}
+					if len(e.files) == 0 {
+						stub = e.fn
+						break
+					}
+					for _, fl := range e.files {
+						if fl == base {
+							stub = e.fn
+						}
+					}
+					if stub != nil {
+						break
+					}
+				}
+				isStubCaller := false
+				for _, e := range entries {
+					if cf == e.fn {
+						isStubCaller = true
+					}
+				}
+				// harness code calling the stubbed API gets the first stub
+				if stub == nil && !isStubCaller && strings.HasPrefix(base, "zz_verif_") {
+					stub = entries[0].fn
+				}
+			}
+			if stub == nil {
+				if orig != nil {
+					return orig(fr, f, args)
+				}
+				return fr.in.callFunction(fr, f, args, nil)
+			}
 			return fr.in.callFunction(fr, stub, args, nil)
 		}
 	}
@@ -627,6 +671,17 @@ func init() {
 		}
 		if _, ok := args[0].(*symStr); ok {
 			panic(unsupported("strconv.ParseInt on symbolic bytes"))
+		}
+		return in.callFunction(fr, fn, args, nil)
+	})
+	reg("strconv.Atoi", func(fr *frame, fn *ssa.Function, args []value) value {
+		in := fr.in
+		if d, ok := args[0].(*decStr); ok && !d.t.IsConst() && d.signed {
+			in.P.noteModelName("strconv.Atoi(dec(t)) = (t, nil)")
+			return tuple{d.t, iface{}}
+		}
+		if _, ok := args[0].(*symStr); ok {
+			panic(unsupported("strconv.Atoi on symbolic bytes"))
 		}
 		return in.callFunction(fr, fn, args, nil)
 	})
